@@ -160,6 +160,8 @@ MUTANTS = [
      "        except socket.error:\n            ex = sys.exc_info()[1]\n            self.close()\n            raise EOFError(ex)\n\n\nclass TunneledSocketStream",
      "        except socket.error:\n            ex = sys.exc_info()[1]\n            raise EOFError(ex)\n\n\nclass TunneledSocketStream"),
     # ---- C12
+    ("c12-reentrant-lock", "C12", "rpyc/core/protocol.py",
+     "        self._sendlock = Lock()", "        import rpyc.utils.server as _srv\n        self._sendlock = _srv.threading.RLock()"),
     ("c12-while-to-if", "C12", "rpyc/core/protocol.py",
      "        while self._send_queue:\n            if not self._sendlock.acquire(False):", "        for _once in (1,):\n            if not self._send_queue:\n                break\n            if not self._sendlock.acquire(False):"),
     ("c12-no-recheck", "C12", "rpyc/core/protocol.py",
@@ -203,6 +205,12 @@ MUTANTS = [
     ("c14-cond-wait-full-timeout", "C14", "rpyc/core/protocol.py",
      "                return wait_for_lock and self._recv_event.wait(timeout.timeleft())",
      "                time.sleep(timeout.timeleft() or 0)\n                return False"),
+    ("c14-check-then-park", "C14", "rpyc/core/protocol.py",
+     "        with self._recv_event:\n            if not self._recvlock.acquire(False):\n                return wait_for_lock and self._recv_event.wait(timeout.timeleft())\n",
+     "        if not self._recvlock.acquire(False):\n            if not wait_for_lock:\n                return False\n            with self._recv_event:\n                return self._recv_event.wait(timeout.timeleft())\n"),
+    ("c13-check-then-park", "C13", "rpyc/core/protocol.py",
+     "        with self._recv_event:\n            if not self._recvlock.acquire(False):\n                return wait_for_lock and self._recv_event.wait(timeout.timeleft())\n",
+     "        if not self._recvlock.acquire(False):\n            if not wait_for_lock:\n                return False\n            with self._recv_event:\n                return self._recv_event.wait(timeout.timeleft())\n"),
     # ---- C15
     ("c15-expired-gt", "C15", "rpyc/lib/__init__.py",
      "        return self.finite and time.time() >= self.tmax", "        return self.finite and time.time() > self.tmax"),
